@@ -307,7 +307,7 @@ def run_check(prop, tier, suites, level, level_text, extra_trusted=(), assumptio
 def intensified_search(prop, suites, seed, tier, broken_corr, budget=None):
     """the tie broke but the monitor saw nothing on the regular cases: look harder for a concrete
     failing input (more seeds; the disagreeing cases and their prefixes/mutations first)."""
-    budget = budget or (90 if tier == "quick" else 300)
+    budget = budget or (150 if tier == "quick" else 450)
     t_end = time.time() + budget
     for su in suites:
         mon = su.monitors().get(prop)
